@@ -140,3 +140,19 @@ copy!(c_u16, u16, 10);
 copy!(c_u32, u32, 10);
 copy!(c_u64, u64, 10);
 copy!(c_a3, [u8; 3], 10);
+
+#[kani::proof]
+#[kani::unwind(10)]
+fn stream_read_upto() {
+    ops::stream_read::<M, false>()
+}
+#[kani::proof]
+#[kani::unwind(10)]
+fn stream_read_exact() {
+    ops::stream_read::<M, true>()
+}
+#[kani::proof]
+#[kani::unwind(10)]
+fn stream_write_upto() {
+    ops::stream_write::<M>()
+}
